@@ -695,11 +695,6 @@ theorem merge2T_sorted (comb : κ → κ → κ) (mf : List ν → Option ν) (z
   · rfl
   · rw [e]; exact tagWith_sorted dflt hs
 
-/-- the top coordinate pair of a point combined -/
-def join2 (comb : κ → κ → κ) : List κ → List κ
-  | c1 :: c0 :: rest => comb c1 c0 :: rest
-  | p => p
-
 theorem content_flat2 (comb : κ → κ → κ) (dflt : ν) (r : Nat) (f : Tree κ ν (r + 2)) :
     content dflt (r + 1) (flat2 comb dflt r f) =
       (content dflt (r + 2) f).map (fun pv => (join2 comb pv.1, pv.2)) := by
@@ -829,12 +824,6 @@ theorem mergeLv_mono (comb : Nat → κ → κ → κ) (mf : List ν → Option 
   rw [mergeLvT_mono comb mf dflt r l f h]
   exact congrArg some (untag_tagWith dflt (show List (κ × Tree κ ν r) from flatLv comb dflt r l f))
 
-/-- image of a point when its first `l+2` coordinates are combined, lowest pair first -/
-def joinTop (comb : Nat → κ → κ → κ) : (l : Nat) → List κ → List κ
-  | 0, p => join2 (comb 0) p
-  | l + 1, c :: rest => join2 (comb (l + 1)) (c :: joinTop comb l rest)
-  | _ + 1, [] => []
-
 theorem content_flatLv (comb : Nat → κ → κ → κ) (dflt : ν) (r : Nat) :
     ∀ (l : Nat) (f : Tree κ ν (r + 2 + l)),
       content dflt (r + 1) (flatLv comb dflt r l f) =
@@ -858,6 +847,323 @@ theorem content_flatLv (comb : Nat → κ → κ → κ) (dflt : ν) (r : Nat) :
       rfl
 
 end flat
+
+/-! ### unflatten -/
+
+section unflat
+variable {κ : Type} [LT κ] [DecidableRel (α := κ) (· < ·)] [DecidableEq κ] [StrictTotal κ]
+variable {ν : Type} [DecidableEq ν]
+
+theorem content_append (dflt : ν) (d : Nat) (a b : List (κ × Tree κ ν d)) :
+    content dflt (d + 1) (show Tree κ ν (d + 1) from a ++ b) =
+      content dflt (d + 1) (show Tree κ ν (d + 1) from a) ++ content dflt (d + 1) (show Tree κ ν (d + 1) from b) := by
+  show List.flatMap _ (a ++ b) = List.flatMap _ a ++ List.flatMap _ b
+  rw [List.flatMap_append]
+
+theorem pre_append (c : κ) (a b : List (List κ × ν)) : pre c (a ++ b) = pre c a ++ pre c b := by
+  unfold pre; rw [List.map_append]
+
+/-- the order of tuple coordinates is the lexicographic order of (first component, rest) -/
+def LexSplit (hd tl : κ → κ) : Prop :=
+  ∀ a b : κ, a < b → hd a < hd b ∨ (hd a = hd b ∧ tl a < tl b)
+
+/-- what the remaining elements must satisfy for the loop of `unflattenRanks` -/
+def LoopOk {π : Type} (hd tl : κ → κ) (rest : Fib κ π) : Prop :=
+  rest.Pairwise (fun x y => ¬ hd y.1 < hd x.1 ∧ (hd x.1 = hd y.1 → tl x.1 < tl y.1))
+
+theorem loopOk_of_sorted {π : Type} {hd tl : κ → κ} (hH : LexSplit hd tl) {l : Fib κ π}
+    (hs : Sorted l) : LoopOk hd tl l := by
+  unfold LoopOk
+  refine List.Pairwise.imp ?_ hs
+  intro x y hxy
+  rcases hH x.1 y.1 hxy with h | ⟨h1, h2⟩
+  · exact ⟨lt_asymm' h, fun e => absurd (e ▸ h) (irrefl _)⟩
+  · exact ⟨fun h => absurd (h1 ▸ h) (irrefl _), fun _ => h2⟩
+
+/-- content of a fiber / of a fiber of fibers given as plain lists -/
+def c1 (dflt : ν) (r : Nat) (cur : List (κ × Tree κ ν r)) : List (List κ × ν) :=
+  cur.flatMap (fun e => pre e.1 (content dflt r e.2))
+def c2 (dflt : ν) (r : Nat) (G : List (κ × List (κ × Tree κ ν r))) : List (List κ × ν) :=
+  G.flatMap (fun g => pre g.1 (c1 dflt r g.2))
+
+theorem c1_eq (dflt : ν) (r : Nat) (cur : List (κ × Tree κ ν r)) :
+    content dflt (r + 1) (show Tree κ ν (r + 1) from cur) = c1 dflt r cur := rfl
+theorem c2_eq (dflt : ν) (r : Nat) (G : List (κ × List (κ × Tree κ ν r))) :
+    content dflt (r + 2) (show Tree κ ν (r + 2) from (show List (κ × Tree κ ν (r + 1)) from G)) =
+      c2 dflt r G := rfl
+
+theorem c1_append (dflt : ν) (r : Nat) (a b : List (κ × Tree κ ν r)) :
+    c1 dflt r (a ++ b) = c1 dflt r a ++ c1 dflt r b := by
+  unfold c1; rw [List.flatMap_append]
+
+theorem c1_single (dflt : ν) (r : Nat) (e : κ × Tree κ ν r) :
+    c1 dflt r [e] = pre e.1 (content dflt r e.2) := by
+  unfold c1; simp
+
+theorem c2_cons (dflt : ν) (r : Nat) (g : κ × List (κ × Tree κ ν r)) (G) :
+    c2 dflt r (g :: G) = pre g.1 (c1 dflt r g.2) ++ c2 dflt r G := by
+  unfold c2; rw [List.flatMap_cons]
+
+theorem content_unflatLoop (dflt : ν) (r : Nat) (hd tl : κ → κ) :
+    ∀ (rest : List (κ × Tree κ ν r)) (cl : κ) (cur : List (κ × Tree κ ν r)),
+      LoopOk hd tl rest → (∀ x ∈ rest, ¬ hd x.1 < cl) →
+      c2 dflt r (unflatLoop hd tl rest cl cur) =
+        pre cl (c1 dflt r cur) ++
+          rest.flatMap (fun x => pre (hd x.1) (pre (tl x.1) (content dflt r x.2)))
+  | [], cl, cur, _, _ => by
+    show c2 dflt r [(cl, cur)] = _
+    rw [c2_cons]; rfl
+  | x :: rest, cl, cur, hC, hA => by
+    have hC' := List.pairwise_cons.1 hC
+    unfold unflatLoop
+    split
+    · rename_i hlt
+      have ih := content_unflatLoop dflt r hd tl rest (hd x.1) [(tl x.1, x.2)] hC'.2
+        (fun y hy => (hC'.1 y hy).1)
+      rw [c2_cons, ih, c1_single, List.flatMap_cons]
+    · rename_i hnlt
+      have heq : hd x.1 = cl := by
+        rcases tri cl (hd x.1) with h | h | h
+        · exact absurd h hnlt
+        · exact h.symm
+        · exact absurd h (hA x (List.mem_cons_self ..))
+      have ih := content_unflatLoop dflt r hd tl rest cl (cur ++ [(tl x.1, x.2)]) hC'.2
+        (fun y hy => hA y (List.mem_cons_of_mem _ hy))
+      rw [ih, c1_append, pre_append, List.flatMap_cons, heq, c1_single, List.append_assoc]
+
+theorem unflatLoop_wf (r : Nat) (hd tl : κ → κ) :
+    ∀ (rest : List (κ × Tree κ ν r)) (cl : κ) (cur : List (κ × Tree κ ν r)),
+      LoopOk hd tl rest → (∀ x ∈ rest, ¬ hd x.1 < cl) →
+      (∀ x ∈ rest, hd x.1 = cl → ∀ e ∈ cur, e.1 < tl x.1) →
+      Sorted cur → cur ≠ [] → (∀ e ∈ cur, WF r e.2) → (∀ x ∈ rest, WF r x.2) →
+      Sorted (unflatLoop hd tl rest cl cur) ∧
+      (∀ g ∈ unflatLoop hd tl rest cl cur, (g.1 = cl ∨ cl < g.1) ∧ g.2 ≠ [] ∧ Sorted g.2 ∧ ∀ e ∈ g.2, WF r e.2)
+  | [], cl, cur, _, _, _, hs, hne, hw, _ => by
+    refine ⟨List.pairwise_singleton _ _, ?_⟩
+    intro g hg
+    rw [List.mem_singleton.1 hg]
+    exact ⟨Or.inl rfl, hne, hs, hw⟩
+  | x :: rest, cl, cur, hC, hA, hB, hs, hne, hw, hwr => by
+    have hC' := List.pairwise_cons.1 hC
+    unfold unflatLoop
+    split
+    · rename_i hlt
+      have ih := unflatLoop_wf r hd tl rest (hd x.1) [(tl x.1, x.2)] hC'.2
+        (fun y hy => (hC'.1 y hy).1)
+        (fun y hy he e he' => by
+          rw [List.mem_singleton.1 he']
+          exact (hC'.1 y hy).2 he.symm)
+        (List.pairwise_singleton _ _) (by simp)
+        (fun e he => by rw [List.mem_singleton.1 he]; exact hwr x (List.mem_cons_self ..))
+        (fun y hy => hwr y (List.mem_cons_of_mem _ hy))
+      refine ⟨List.Pairwise.cons ?_ ih.1, ?_⟩
+      · intro g hg
+        rcases (ih.2 g hg).1 with h | h
+        · show cl < g.1
+          rw [h]; exact hlt
+        · exact trans hlt h
+      · intro g hg
+        rcases List.mem_cons.1 hg with rfl | hg
+        · exact ⟨Or.inl rfl, hne, hs, hw⟩
+        · have := ih.2 g hg
+          refine ⟨Or.inr ?_, this.2⟩
+          rcases this.1 with h | h
+          · rw [h]; exact hlt
+          · exact trans hlt h
+    · rename_i hnlt
+      have heq : hd x.1 = cl := by
+        rcases tri cl (hd x.1) with h | h | h
+        · exact absurd h hnlt
+        · exact h.symm
+        · exact absurd h (hA x (List.mem_cons_self ..))
+      have hcur : Sorted (cur ++ [(tl x.1, x.2)]) := by
+        unfold Sorted
+        rw [List.pairwise_append]
+        refine ⟨hs, List.pairwise_singleton _ _, ?_⟩
+        intro a ha b hb
+        rw [List.mem_singleton.1 hb]
+        exact hB x (List.mem_cons_self ..) heq a ha
+      exact unflatLoop_wf r hd tl rest cl (cur ++ [(tl x.1, x.2)]) hC'.2
+        (fun y hy => hA y (List.mem_cons_of_mem _ hy))
+        (fun y hy he e he' => by
+          rcases List.mem_append.1 he' with he' | he'
+          · exact hB y (List.mem_cons_of_mem _ hy) he e he'
+          · rw [List.mem_singleton.1 he']
+            exact (hC'.1 y hy).2 (heq.trans he.symm))
+        hcur (by simp)
+        (fun e he => by
+          rcases List.mem_append.1 he with he | he
+          · exact hw e he
+          · rw [List.mem_singleton.1 he]; exact hwr x (List.mem_cons_self ..))
+        (fun y hy => hwr y (List.mem_cons_of_mem _ hy))
+
+/-! ### one level of descent (`updatePayloads`): what holds for every payload holds for the fiber -/
+
+/-- a point map applied below the first coordinate -/
+def lift1 (φ : List κ → List κ) : List κ → List κ
+  | c :: p => c :: φ p
+  | [] => []
+
+/-- a point map applied below the first `k` coordinates -/
+def liftN (φ : List κ → List κ) : Nat → List κ → List κ
+  | 0 => φ
+  | k + 1 => lift1 (liftN φ k)
+
+theorem sorted_of_keys_eq {π π' : Type} {a : Fib κ π} {b : Fib κ π'}
+    (h : b.map (fun e => e.1) = a.map (fun e => e.1)) (hs : Sorted a) : Sorted b := by
+  have ha : (a.map (fun e => e.1)).Pairwise (· < ·) := by
+    rw [List.pairwise_map]; exact hs
+  rw [← h, List.pairwise_map] at ha
+  exact ha
+
+theorem pre_map_lift1 (φ : List κ → List κ) (c : κ) (L : List (List κ × ν)) :
+    (pre c L).map (fun pv => (lift1 φ pv.1, pv.2)) = pre c (L.map (fun pv => (φ pv.1, pv.2))) := by
+  unfold pre
+  rw [List.map_map, List.map_map]
+  rfl
+
+/-- if `F` succeeds on every payload with a well-formed result whose content is a permutation
+    of the `φ`-image of the payload's content, the same holds one level up (same coordinates) -/
+theorem mapM?_level (dflt dflt' : ν) (d d' : Nat) (F : Tree κ ν d → Option (Tree κ ν d'))
+    (φ : List κ → List κ) :
+    ∀ (G : List (κ × Tree κ ν d)),
+      (∀ g ∈ G, ∃ t, F g.2 = some t ∧ WF d' t ∧
+        (content dflt' d' t).Perm ((content dflt d g.2).map (fun pv => (φ pv.1, pv.2)))) →
+      ∃ bs : List (κ × Tree κ ν d'),
+        mapM? (fun e => (F e.2).map (fun t => (e.1, t))) G = some bs ∧
+        bs.map (fun e => e.1) = G.map (fun e => e.1) ∧ (∀ b ∈ bs, WF d' b.2) ∧
+        (c1 dflt' d' bs).Perm ((c1 dflt d G).map (fun pv => (lift1 φ pv.1, pv.2)))
+  | [], _ => ⟨[], rfl, rfl, (fun _ h => by cases h), List.Perm.refl _⟩
+  | g :: G, h => by
+    obtain ⟨t, ht, hwt, hct⟩ := h g (List.mem_cons_self ..)
+    obtain ⟨bs, hbs, hk, hw, hc⟩ := mapM?_level dflt dflt' d d' F φ G
+      (fun g' hg' => h g' (List.mem_cons_of_mem _ hg'))
+    refine ⟨(g.1, t) :: bs, ?_, ?_, ?_, ?_⟩
+    · simp [mapM?, ht, hbs]
+    · simp [hk]
+    · intro b hb
+      rcases List.mem_cons.1 hb with rfl | hb
+      · exact hwt
+      · exact hw b hb
+    · unfold c1 at hc ⊢
+      rw [List.flatMap_cons, List.flatMap_cons, List.map_append, pre_map_lift1]
+      refine List.Perm.append ?_ hc
+      unfold pre
+      exact hct.map _
+
+/-- the same with equality instead of permutation (order-preserving point maps) -/
+theorem mapM?_level_eq (dflt dflt' : ν) (d d' : Nat) (F : Tree κ ν d → Option (Tree κ ν d'))
+    (φ : List κ → List κ) :
+    ∀ (G : List (κ × Tree κ ν d)),
+      (∀ g ∈ G, ∃ t, F g.2 = some t ∧ WF d' t ∧
+        content dflt' d' t = (content dflt d g.2).map (fun pv => (φ pv.1, pv.2))) →
+      ∃ bs : List (κ × Tree κ ν d'),
+        mapM? (fun e => (F e.2).map (fun t => (e.1, t))) G = some bs ∧
+        bs.map (fun e => e.1) = G.map (fun e => e.1) ∧ (∀ b ∈ bs, WF d' b.2) ∧
+        c1 dflt' d' bs = (c1 dflt d G).map (fun pv => (lift1 φ pv.1, pv.2))
+  | [], _ => ⟨[], rfl, rfl, (fun _ h => by cases h), rfl⟩
+  | g :: G, h => by
+    obtain ⟨t, ht, hwt, hct⟩ := h g (List.mem_cons_self ..)
+    obtain ⟨bs, hbs, hk, hw, hc⟩ := mapM?_level_eq dflt dflt' d d' F φ G
+      (fun g' hg' => h g' (List.mem_cons_of_mem _ hg'))
+    refine ⟨(g.1, t) :: bs, ?_, ?_, ?_, ?_⟩
+    · simp [mapM?, ht, hbs]
+    · simp [hk]
+    · intro b hb
+      rcases List.mem_cons.1 hb with rfl | hb
+      · exact hwt
+      · exact hw b hb
+    · unfold c1 at hc ⊢
+      rw [List.flatMap_cons, List.flatMap_cons, List.map_append, pre_map_lift1, hc, hct]
+
+/-! ### `unflattenRanks` is correct -/
+
+theorem unflat1_spec (dflt : ν) (r : Nat) (hd tl : κ → κ) (hH : LexSplit hd tl)
+    (l : List (κ × Tree κ ν r)) (hne : l ≠ []) (hs : Sorted l) (hw : ∀ x ∈ l, WF r x.2) :
+    ∃ G, unflat1 hd tl l = some G ∧ Sorted G ∧
+      (∀ g ∈ G, g.2 ≠ [] ∧ Sorted g.2 ∧ ∀ e ∈ g.2, WF r e.2) ∧
+      c2 dflt r G = (c1 dflt r l).map (fun pv => (splitTop hd tl 0 pv.1, pv.2)) := by
+  cases l with
+  | nil => exact absurd rfl hne
+  | cons x rest =>
+    have hC := loopOk_of_sorted (π := Tree κ ν r) hH hs
+    have hC' := List.pairwise_cons.1 hC
+    refine ⟨_, rfl, ?_, ?_, ?_⟩
+    · exact (unflatLoop_wf r hd tl rest (hd x.1) [(tl x.1, x.2)] hC'.2
+        (fun y hy => (hC'.1 y hy).1)
+        (fun y hy he e he' => by rw [List.mem_singleton.1 he']; exact (hC'.1 y hy).2 he.symm)
+        (List.pairwise_singleton _ _) (by simp)
+        (fun e he => by rw [List.mem_singleton.1 he]; exact hw x (List.mem_cons_self ..))
+        (fun y hy => hw y (List.mem_cons_of_mem _ hy))).1
+    · intro g hg
+      exact ((unflatLoop_wf r hd tl rest (hd x.1) [(tl x.1, x.2)] hC'.2
+        (fun y hy => (hC'.1 y hy).1)
+        (fun y hy he e he' => by rw [List.mem_singleton.1 he']; exact (hC'.1 y hy).2 he.symm)
+        (List.pairwise_singleton _ _) (by simp)
+        (fun e he => by rw [List.mem_singleton.1 he]; exact hw x (List.mem_cons_self ..))
+        (fun y hy => hw y (List.mem_cons_of_mem _ hy))).2 g hg).2
+    · rw [content_unflatLoop dflt r hd tl rest (hd x.1) [(tl x.1, x.2)] hC'.2
+        (fun y hy => (hC'.1 y hy).1), c1_single]
+      have key : ∀ L : List (κ × Tree κ ν r),
+          L.flatMap (fun x => pre (hd x.1) (pre (tl x.1) (content dflt r x.2))) =
+            (c1 dflt r L).map (fun pv => (splitTop hd tl 0 pv.1, pv.2)) := by
+        intro L
+        unfold c1
+        induction L with
+        | nil => rfl
+        | cons y L ih =>
+          rw [List.flatMap_cons, List.flatMap_cons, List.map_append, ih]
+          congr 1
+          unfold pre
+          rw [List.map_map, List.map_map]
+          rfl
+      have := key (x :: rest)
+      rw [List.flatMap_cons] at this
+      exact this
+
+theorem splitTop_pre (hd tl : κ → κ) (l : Nat) (c : κ) (L : List (List κ × ν)) :
+    (pre c L).map (fun pv => (splitTop hd tl (l + 1) pv.1, pv.2)) =
+      pre (hd c) ((pre (tl c) L).map (fun pv => (splitTop hd tl l pv.1, pv.2))) := by
+  unfold pre
+  rw [List.map_map, List.map_map, List.map_map]
+  rfl
+
+/-- `unflattenRanks(levels = l+1)` on a non-empty well-formed fiber succeeds, the result is
+    well-formed and every point has moved to its image (order preserved) -/
+theorem unflatLv_spec (dflt : ν) (hd tl : κ → κ) (hH : LexSplit hd tl) (r : Nat) :
+    ∀ (l : Nat) (f : Tree κ ν (r + 1)), (show List (κ × Tree κ ν r) from f) ≠ [] → WF (r + 1) f →
+      ∃ g, unflatLv hd tl r l f = some g ∧ WF (r + 2 + l) g ∧
+        content dflt (r + 2 + l) g =
+          (content dflt (r + 1) f).map (fun pv => (splitTop hd tl l pv.1, pv.2))
+  | 0, f, hne, hw => by
+    obtain ⟨G, hG, hs, hg, hc⟩ := unflat1_spec dflt r hd tl hH _ hne hw.1 hw.2
+    refine ⟨show List (κ × Tree κ ν (r + 1)) from G, ?_, ?_, ?_⟩
+    · unfold unflatLv; rw [hG]; rfl
+    · exact ⟨hs, fun g hg' => ⟨(hg g hg').2.1, (hg g hg').2.2⟩⟩
+    · exact hc
+  | l + 1, f, hne, hw => by
+    obtain ⟨G, hG, hs, hg, hc⟩ := unflat1_spec dflt r hd tl hH _ hne hw.1 hw.2
+    obtain ⟨bs, hbs, hk, hwb, hcb⟩ := mapM?_level_eq dflt dflt (r + 1) (r + 2 + l)
+      (unflatLv hd tl r l) (fun p => splitTop hd tl l p)
+      (show List (κ × Tree κ ν (r + 1)) from G)
+      (fun g hg' => unflatLv_spec dflt hd tl hH r l g.2 (hg g hg').1
+        ⟨(hg g hg').2.1, (hg g hg').2.2⟩)
+    refine ⟨show List (κ × Tree κ ν (r + 2 + l)) from bs, ?_, ?_, ?_⟩
+    · unfold unflatLv
+      rw [hG]
+      exact congrArg (Option.map _) hbs
+    · exact ⟨sorted_of_keys_eq hk hs, hwb⟩
+    · show c1 dflt (r + 2 + l) bs = _
+      rw [hcb]
+      show (c2 dflt r G).map _ = _
+      rw [hc, List.map_map]
+      show _ = (c1 dflt r (show List (κ × Tree κ ν r) from f)).map _
+      apply List.map_congr_left
+      intro pv _
+      obtain ⟨p, v⟩ := pv
+      cases p <;> rfl
+
+end unflat
 
 end C09
 end Ft
